@@ -481,10 +481,10 @@ def replay(out, pending):
 
 def run(out):
     out.functions = ["PreProcessContext::pre_process_path", "pre_process_workspace_path_item", "replace_env_var closure", "replace_placeholders closure",
-                     "PreProcessContext::new (regex patterns)"]
+                     "PreProcessContext::new (regex patterns)", "flatten_config::to_emmyrc_json", "flatten_config::flatten_object"]
     out.bounds = {"strings": "every valid UTF-8 string: symbolic length (< 2^16) and bytes, the first %d bytes modelled exactly" % NB,
                   "callees": "env-var / placeholder substitution, str::replace, home_dir, Path::join return arbitrary strings / any Option outcome"}
-    out.outside = ["the Lua configuration loader (a Lua VM)", "file reading / JSON parsing errors (serde_json)", "hash-order dependent behaviour of key flattening beyond the panic obligations",
+    out.outside = ["the Lua configuration loader (a Lua VM)", "file reading / JSON parsing errors (serde_json)", "what the rebuilt object contains (only panic freedom of key flattening is claimed); keys with more dot separated segments than the bound",
                    "panics inside the regex crate itself"]
     out.assumptions = ["regex Captures: group 0 always exists; a group participates in every match iff it is not inside an optional/alternated construct of the pattern (syntactic analysis of the pattern constant read from PreProcessContext::new)",
                        "std string APIs: Index<RangeFrom/RangeTo/Range> and split_at panic exactly when the index is past the end or not on a char boundary; starts_with, len, is_empty exact",
@@ -493,6 +493,8 @@ def run(out):
     pending = []
     try:
         analyse(out, mc, pending)
+        import c31flat
+        c31flat.analyse(out, mc, pending, Obligation, out.tier)
     except (symex.Unsupported, RuntimeError, KeyError, ValueError, IndexError, AttributeError) as e:
         import traceback
         out.fatal = "engine M could not encode the current source: %r\n%s" % (e, traceback.format_exc()[-1500:])
